@@ -133,4 +133,78 @@ pub open spec fn same_outcome<T>(r: Result<T>, err: Option<ErrorCode>, ok: spec_
         assert(rg =~= reward_growths_inside);
     }
 //@ end
+
+// ------------------------------------------------------------------ the wrappers between the handlers and the computation (C05, C12, C13)
+//@ tags C05 C12 C13
+//@ assume abstract Pinocchio tick array: `dyn TickArray` is specified by the view tick_at(index, spacing) (Some(tick) iff the index is a usable tick of this array) with the get_tick / update_tick frame contract that fragment pino_tick_arrays proves for the fixed array and (byte level, P2 + layout lemma) for the dynamic array
+pub open spec fn tick_is(t: Tick, u: crate::state_core::TickUpdate) -> bool {
+    t.initialized == u.initialized && t.liquidity_net == u.liquidity_net && t.liquidity_gross == u.liquidity_gross && t.fee_growth_outside_a == u.fee_growth_outside_a
+    && t.fee_growth_outside_b == u.fee_growth_outside_b && (forall|k: int| 0 <= k < 3 ==> t.reward_growths_outside[k] == u.reward_growths_outside[k])
+}
+pub trait TickArray {
+    spec fn tick_at(&self, tick_index: int, spacing: int) -> Option<Tick>;
+    spec fn variable(&self) -> bool;
+    fn is_variable_size(&self) -> (r: bool) ensures r == self.variable();
+    fn get_tick(&self, tick_index: i32, tick_spacing: u16) -> (r: Result<&MemoryMappedTick>)
+        ensures match self.tick_at(tick_index as int, tick_spacing as int) { Some(t) => r matches Ok(x) && x.view() == t, None => r is Err };
+    fn update_tick(&mut self, tick_index: i32, tick_spacing: u16, update: &TickUpdate) -> (r: Result<()>)
+        ensures final(self).variable() == old(self).variable(),
+            match old(self).tick_at(tick_index as int, tick_spacing as int) {
+                Some(t0) => r is Ok && (final(self).tick_at(tick_index as int, tick_spacing as int) matches Some(t1) && tick_is(t1, update.view()))
+                    && forall|j: int| j != tick_index ==> #[trigger] final(self).tick_at(j, tick_spacing as int) == old(self).tick_at(j, tick_spacing as int),
+                None => r is Err && forall|j: int| #[trigger] final(self).tick_at(j, tick_spacing as int) == old(self).tick_at(j, tick_spacing as int) };
+}
+/// C05/C12: the update computed for a liquidity change is modify_liquidity_core evaluated on the pool, the position and the position's OWN two bound ticks,
+/// the lower one read from the lower array and the upper one from the upper array; a bound that is not a tick of its array is an error
+//@ fn pinocchio/ported/manager_liquidity_manager.rs pino_calculate_modify_liquidity -> r tags=C05,C12,C07,C11
+    requires forall|k: int| 0 <= k < 3 ==> (!(#[trigger] whirlpool.view().reward_infos[k]).is_init() ==> whirlpool.view().reward_infos[k].emissions_per_second_x64 == 0),
+    ensures
+        tick_array_lower.tick_at(position.view().tick_lower_index as int, whirlpool.view().tick_spacing as int) is None ==> r is Err,
+        tick_array_upper.tick_at(position.view().tick_upper_index as int, whirlpool.view().tick_spacing as int) is None ==> r is Err,
+        r matches Ok(u) ==> (tick_array_lower.tick_at(position.view().tick_lower_index as int, whirlpool.view().tick_spacing as int) matches Some(tl)
+            && tick_array_upper.tick_at(position.view().tick_upper_index as int, whirlpool.view().tick_spacing as int) matches Some(tu)
+            && modify_liquidity_core(whirlpool.view(), position.view(), tl, tu, position.view().tick_lower_index as int, position.view().tick_upper_index as int,
+                tick_array_lower.variable(), tick_array_upper.variable(), liquidity_delta as int, timestamp as int,
+                u.whirlpool_liquidity, u.tick_lower_update.view(), u.tick_upper_update.view(), |k: int| u.next_reward_growth_global[k], u.position_update, u.tick_array_lower_update, u.tick_array_upper_update)),
+//@ end
+pub open spec fn refresh_core(w: Whirlpool, p: Position, tl: Tick, tu: Tick, lv: bool, uv: bool, ts: int, wl: u128, tlu: crate::state_core::TickUpdate, tuu: crate::state_core::TickUpdate, g: [u128; 3], pu: PositionUpdate, au: TickArrayUpdate, bu: TickArrayUpdate) -> bool {
+    modify_liquidity_core(w, p, tl, tu, p.tick_lower_index as int, p.tick_upper_index as int, lv, uv, 0, ts, wl, tlu, tuu, |k: int| g[k], pu, au, bu)
+}
+pub open spec fn refresh_ok(w: Whirlpool, p: Position, tl: Tick, tu: Tick, lv: bool, uv: bool, ts: int, g: [u128; 3], pu: PositionUpdate) -> bool {
+    exists|wl: u128, tlu: crate::state_core::TickUpdate, tuu: crate::state_core::TickUpdate, au: TickArrayUpdate, bu: TickArrayUpdate| #[trigger] refresh_core(w, p, tl, tu, lv, uv, ts, wl, tlu, tuu, g, pu, au, bu)
+}
+/// the fee/reward refresh is the same computation with a zero liquidity change
+//@ fn pinocchio/ported/manager_liquidity_manager.rs pino_calculate_fee_and_reward_growths -> r tags=C07,C11,C12
+    requires forall|k: int| 0 <= k < 3 ==> (!(#[trigger] whirlpool.view().reward_infos[k]).is_init() ==> whirlpool.view().reward_infos[k].emissions_per_second_x64 == 0),
+    ensures
+        r is Ok ==> tick_array_lower.tick_at(position.view().tick_lower_index as int, whirlpool.view().tick_spacing as int) is Some
+            && tick_array_upper.tick_at(position.view().tick_upper_index as int, whirlpool.view().tick_spacing as int) is Some,
+        r matches Ok(p) ==> refresh_ok(whirlpool.view(), position.view(),
+                    tick_array_lower.tick_at(position.view().tick_lower_index as int, whirlpool.view().tick_spacing as int)->Some_0,
+                    tick_array_upper.tick_at(position.view().tick_upper_index as int, whirlpool.view().tick_spacing as int)->Some_0,
+                    tick_array_lower.variable(), tick_array_upper.variable(), timestamp as int, p.1, p.0),
+//@ inject before /^    Ok\(\(update\.position_update/
+    proof { assert(refresh_core(whirlpool.view(), position.view(), tick_lower.view(), tick_upper.view(), tick_array_lower.variable(), tick_array_upper.variable(), timestamp as int,
+        update.whirlpool_liquidity, update.tick_lower_update.view(), update.tick_upper_update.view(), update.next_reward_growth_global, update.position_update, update.tick_array_lower_update, update.tick_array_upper_update));
+      assert(refresh_ok(whirlpool.view(), position.view(), tick_lower.view(), tick_upper.view(), tick_array_lower.variable(), tick_array_upper.variable(), timestamp as int, update.next_reward_growth_global, update.position_update));
+    }
+//@ end
+/// C05/C12/C13: writing an update back: the position takes the position update, the lower bound tick (in the lower array) the lower tick update, the upper bound tick
+/// (in the upper array, or in the same array when both bounds share one) the upper tick update, the pool its liquidity / reward growths / timestamp; nothing else changes
+//@ fn pinocchio/ported/manager_liquidity_manager.rs pino_sync_modify_liquidity_values -> r tags=C05,C12,C13,C07,C11
+    requires old(position).view().tick_lower_index != old(position).view().tick_upper_index,
+    ensures ({
+        let p0 = old(position).view(); let sp = old(whirlpool).view().tick_spacing as int; let u = modify_liquidity_update;
+        r is Ok ==> {
+            &&& final(position).view().liquidity == u.position_update.liquidity && final(position).view().tick_lower_index == p0.tick_lower_index && final(position).view().tick_upper_index == p0.tick_upper_index
+            &&& final(position).view().fee_owed_a == u.position_update.fee_owed_a && final(position).view().fee_owed_b == u.position_update.fee_owed_b
+            &&& final(position).view().whirlpool == p0.whirlpool
+            &&& final(whirlpool).liquidity_v() == u.whirlpool_liquidity && final(whirlpool).reward_ts_v() == reward_last_updated_timestamp
+            &&& final(whirlpool).sqrt_price_v() == old(whirlpool).sqrt_price_v() && final(whirlpool).tick_current_index_v() == old(whirlpool).tick_current_index_v()
+            &&& (final(tick_array_lower).tick_at(p0.tick_lower_index as int, sp) matches Some(t) && tick_is(t, u.tick_lower_update.view()))
+            &&& (match tick_array_upper { Some(up) => final(up).tick_at(p0.tick_upper_index as int, sp) matches Some(t) && tick_is(t, u.tick_upper_update.view()),
+                    None => final(tick_array_lower).tick_at(p0.tick_upper_index as int, sp) matches Some(t) && tick_is(t, u.tick_upper_update.view()) })
+            &&& (forall|j: int| j != p0.tick_lower_index && (tick_array_upper is Some || j != p0.tick_upper_index) ==> #[trigger] final(tick_array_lower).tick_at(j, sp) == old(tick_array_lower).tick_at(j, sp))
+        } }),
+//@ end
 }
